@@ -24,9 +24,25 @@ package mdiff
 //@+     && (len(c.Edits) == 0 <==> c.LEnd == c.LStart && c.REnd == c.RStart)
 //@+     && (forall k int :: {c.Edits[k]} 0 <= k && k < len(c.Edits) ==> c.Edits[k].Op != slice.OpEmit && editOK(c.Edits[k], L, R, slice.equal, c.cl[k] - 1, c.cr[k] - 1, c.cl[k + 1] - 1, c.cr[k + 1] - 1))
 //@
+// After AddContext a chunk's edits are no longer spans of the script: the context edits hold copies of lines. chunkDesc
+// is the content-level description C13 states: with ghost line positions cl[k], cr[k] (1-based) before the k-th edit,
+// every edit's X (resp. Y) equals, line by line, the lines of Left (resp. Right) at its position, an Emit edit's lines
+// being the same on both sides, the positions advance by what the edit consumes and produces, and the chunk runs
+// from (LStart, RStart) to (LEnd, REnd).
+//@ spec consumes(e Edit) int := ite(e.Op == slice.OpCopy, 0, len(e.X))
+//@ spec produces(e Edit) int := ite(e.Op == slice.OpDrop, 0, ite(e.Op == slice.OpEmit, len(e.X), len(e.Y)))
+//@ pred editDesc(e Edit, L []string, R []string, l int, r int) := (e.Op == slice.OpDrop || e.Op == slice.OpCopy || e.Op == slice.OpReplace || e.Op == slice.OpEmit) && 0 <= l && 0 <= r
+//@+     && (e.Op != slice.OpCopy ==> l + len(e.X) <= len(L) && (forall j int :: {e.X[j]} 0 <= j && j < len(e.X) ==> streq(e.X[j], L[l + j])))
+//@+     && (e.Op == slice.OpCopy || e.Op == slice.OpReplace ==> r + len(e.Y) <= len(R) && (forall j int :: {e.Y[j]} 0 <= j && j < len(e.Y) ==> streq(e.Y[j], R[r + j])))
+//@+     && (e.Op == slice.OpEmit ==> r + len(e.X) <= len(R) && (forall j int :: {e.X[j]} 0 <= j && j < len(e.X) ==> streq(e.X[j], R[r + j])))
+//@ pred chunkDesc(c *Chunk, L []string, R []string) := c != nil && allocated(c) && 1 <= c.LStart && 1 <= c.RStart && c.LStart <= c.LEnd && c.RStart <= c.REnd && c.LEnd <= len(L) + 1 && c.REnd <= len(R) + 1
+//@+     && c.cl[0] == c.LStart && c.cr[0] == c.RStart && c.cl[len(c.Edits)] == c.LEnd && c.cr[len(c.Edits)] == c.REnd
+//@+     && (forall k int :: {c.Edits[k]} 0 <= k && k < len(c.Edits) ==> editDesc(c.Edits[k], L, R, c.cl[k] - 1, c.cr[k] - 1) && c.cl[k + 1] == c.cl[k] + consumes(c.Edits[k]) && c.cr[k + 1] == c.cr[k] + produces(c.Edits[k]))
+//@
 //@ func New
 //@   ensures [C13] diff: result != nil && fresh(result) && result.Left == lhs && result.Right == rhs
 //@   ensures [C13] chunks: forall j int :: {result.Chunks[j]} 0 <= j && j < len(result.Chunks) ==> chunkOK(result.Chunks[j], lhs, rhs)
+//@   ensures [C13] described: forall j int :: {result.Chunks[j]} 0 <= j && j < len(result.Chunks) ==> chunkDesc(result.Chunks[j], lhs, rhs)
 //@   ensures [C13] ordered: forall a int, b int :: {result.Chunks[a], result.Chunks[b]} 0 <= a && b == a + 1 && b < len(result.Chunks) ==> result.Chunks[a].LEnd <= result.Chunks[b].LStart && result.Chunks[a].REnd <= result.Chunks[b].RStart
 //@   at after "es := slice.EditScript(lhs, rhs)": ghost lp = EditScript_lp
 //@   at after "es := slice.EditScript(lhs, rhs)": ghost rp = EditScript_rp
